@@ -255,8 +255,17 @@ func (c *Ctx) c12Recovery() {
 			r.Ok("C12.recovery-consume", name, "Put+Save≺success", pos, "used code removed and saved before any success outcome")
 			// save error is acted on
 			for _, s := range CallsTo(fn, fnSave) {
-				if k, _ := c.errHandling(s); k == "dropped" || k == "escapes" {
+				k, _ := c.errHandling(s)
+				if k == "dropped" || k == "escapes" {
 					r.Bad("C12.recovery-consume", name, "Save.err", posf(c, s), "error of Save is "+k)
+					continue
+				}
+				// the save that burns the code: a failure must stop the flow (a logged and
+				// otherwise ignored error lets the login complete with the code still stored)
+				if k == "tested" && Reaches(call.(ssa.Instruction), s.(ssa.Instruction)) {
+					if okP, why := c.errPropagated(s); !okP {
+						r.Bad("C12.recovery-consume", name, "Save.err", posf(c, s), "the error of the save that removes the used recovery code is not handed back ("+why+"): the login completes although the code was not consumed")
+					}
 				}
 			}
 		}
@@ -494,6 +503,20 @@ func (c *Ctx) c12TOTPReplay() {
 		}
 		if has {
 			c.mustSaveAfterPut("C12.totp-replay-save", fn, except)
+			// what is recorded as the last code is the code that was validated
+			for _, call := range Calls(fn) {
+				cc := call.Common()
+				if !cc.IsInvoke() || cc.Method.Name() != "PutTOTPLastCode" {
+					continue
+				}
+				okArg := false
+				for _, tv := range CallsTo(fn, fnTOTPValidate) {
+					if Arg(tv, 0) == Arg(call, 0) {
+						okArg = true
+					}
+				}
+				r.Check(okArg, "C12.totp-replay-save", FuncName(fn), "PutTOTPLastCode(<validated code>)", posf(c, call), "records the code that was checked", "the value recorded as the last accepted code is not the code that was validated here: the code that was actually used is accepted again")
+			}
 		}
 	}
 	// PostValidate: for a UserOneTime, Save before the session write
